@@ -18,8 +18,12 @@ var intrinsics map[string]intrinsic
 
 func init() {
 	intrinsics = map[string]intrinsic{
-		"(*sync.Mutex).Lock":   func(ex *Exec, c *frame, fn *ssa.Function, a []Value) Value { ex.mutexLock(a[0].(*Value)); return nil },
-		"(*sync.Mutex).Unlock": func(ex *Exec, c *frame, fn *ssa.Function, a []Value) Value { ex.mutexUnlock(a[0].(*Value)); return nil },
+		"(*sync.Mutex).Lock":      func(ex *Exec, c *frame, fn *ssa.Function, a []Value) Value { ex.mutexLock(a[0].(*Value)); return nil },
+		"(*sync.Mutex).Unlock":    func(ex *Exec, c *frame, fn *ssa.Function, a []Value) Value { ex.mutexUnlock(a[0].(*Value)); return nil },
+		"(*sync.RWMutex).Lock":    func(ex *Exec, c *frame, fn *ssa.Function, a []Value) Value { ex.rwLock(a[0].(*Value)); return nil },
+		"(*sync.RWMutex).Unlock":  func(ex *Exec, c *frame, fn *ssa.Function, a []Value) Value { ex.mutexUnlock(a[0].(*Value)); return nil },
+		"(*sync.RWMutex).RLock":   func(ex *Exec, c *frame, fn *ssa.Function, a []Value) Value { ex.rwRLock(a[0].(*Value)); return nil },
+		"(*sync.RWMutex).RUnlock": func(ex *Exec, c *frame, fn *ssa.Function, a []Value) Value { ex.rwRUnlock(a[0].(*Value)); return nil },
 		"(*sync.Mutex).TryLock": func(ex *Exec, c *frame, fn *ssa.Function, a []Value) Value {
 			st := ex.mutexOf(a[0].(*Value))
 			if st.locked {
